@@ -114,7 +114,7 @@ Theorem C02_ab_plan_conformant : forall optimize_fn data symbols modes cw s,
   bytes_ok data = true ->
   encode_data_internal optimize_fn data symbols None modes false false = Ok (cw, s) ->
   exists script npad, script_ok script npad = true /\ cw = stream script npad /\ meaning script = data /\ Forall ab_seg script.
-Proof. intros o d sy m cw s HP OK H. exact (proj1 (ab_plan_roundtrip o d sy m HP cw s OK H)). Qed.
+Proof. intros o d sy m cw s HP OK H. exact (proj1 (ab_plan_roundtrip o sy m d HP cw s OK H)). Qed.
 Print Assumptions C02_ab_plan_conformant.
 
 Theorem C02_ascii_base256_conformant : forall sorter data symbols cw s,
